@@ -36,7 +36,7 @@ var (
 type caseT struct {
 	Seq     int    `json:"seq"`
 	Flags   uint16 `json:"udp_reply_flags"`
-	Pad     int    `json:"udp_reply_pad"`
+	Pad     int    `json:"udp_reply_pad"` // -1: the UDP reply is a bare 12-byte header
 	TCPMode string `json:"tcp_mode"` // answer | close | none | garbage | slowclose
 	ID      uint16 `json:"caller_id"`
 }
@@ -122,7 +122,14 @@ func (s *server) serveUDP() {
 		first := o.udpSeen == 1
 		if first {
 			o.udpQuery = q
-			o.udpReply = dnsadv.Reply(qi.WireID, c.Flags, qi.QSect, fmt.Sprintf("udp/q%d", qi.Seq), c.Pad, byte(qi.Seq))
+			if c.Pad < 0 {
+				// header-only reply: 12 bytes, zero counts (the smallest valid DNS message)
+				o.udpReply = make([]byte, 12)
+				binary.BigEndian.PutUint16(o.udpReply, qi.WireID)
+				binary.BigEndian.PutUint16(o.udpReply[2:], c.Flags)
+			} else {
+				o.udpReply = dnsadv.Reply(qi.WireID, c.Flags, qi.QSect, fmt.Sprintf("udp/q%d", qi.Seq), c.Pad, byte(qi.Seq))
+			}
 		}
 		// a resend gets the same reply with the resend's wire id
 		r := append([]byte(nil), o.udpReply...)
@@ -214,6 +221,10 @@ func runCase(s *server, u upstream.Upstream, c *caseT) {
 		rep.Violation("query-buffer-modified", "ExchangeContext modified the caller's query", wit)
 	}
 	var got []byte
+	if err == nil && rb == nil {
+		rep.Violation("nil-reply-without-error-"+cls, "ExchangeContext returned (nil, nil): neither a reply nor an error", wit)
+		return
+	}
 	if err == nil {
 		if !poolsan.Check(rb, "c17 reply") {
 			return
@@ -287,7 +298,10 @@ func runCase(s *server, u upstream.Upstream, c *caseT) {
 		}
 		rep.Count("tc_set_tcp_failed_outcome_ok", 1)
 	}
-	rep.Nontrivial(fmt.Sprintf("%s|flags%04x|pad%d", cls, c.Flags, c.Pad/300))
+	rep.Nontrivial(fmt.Sprintf("%s|flags%04x|pad%d", cls, c.Flags, (c.Pad+300)/300))
+	if c.Pad < 0 {
+		rep.Count("header_only_udp_replies_judged", 1)
+	}
 	rep.SetAdd("flag_words", fmt.Sprintf("%04x", c.Flags))
 	if rep.WantSample() && c.Seq%97 == 0 {
 		rep.Sample(wit)
@@ -367,7 +381,7 @@ func main() {
 			}
 		}()
 	}
-	pads := []int{0, 1, 50, 400, 1100, 3000}
+	pads := []int{-1, 0, 1, 50, 400, 1100, 3000} // -1 = bare 12-byte header
 	for i, f := range flagWords {
 		mode := "answer"
 		if f&0x0200 != 0 {
